@@ -2,7 +2,8 @@
 from harness import gen_loop, spec_loop
 
 MODEL = 'loop'
-RULE = ('corpus, then seeded random scenarios: integer clock readings fed to the real loop as floats r/8, as Python '
+RULE = ('corpus, then seeded random scenarios (45 % of them with the Python protocol dressing `identity`: distinct '
+        'handle objects that compare equal and hash alike or are unhashable, falsy handles and falsy worlds): integer clock readings fed to the real loop as floats r/8, as Python '
         'ints of any size (around and above 2**53, ns since the epoch) or as exact Fractions r/7; small, huge and '
         'negative bases, repeats, mostly non-decreasing and sometimes stepping backwards; the delta handed to process '
         'is compared with the difference of the two readings as exact rationals, never through float; 1-3 start() calls of 1-8 frames over 1-3 worlds with 1-3 '
